@@ -28,6 +28,9 @@ def h07(c, U=3, R=1, other_market=False, suspensions=False, real_time_error=Fals
     with cm.config_set(simulated=True, place_latency=lat["place"], cancel_latency=lat["cancel"], update_latency=lat["update"], replace_latency=lat["replace"],
                        async_place_orders=async_place):
         u_req = c.choose("request_at_update", list(range(0, U - 1)))
+        staggered = c.choose("requests_made_at_consecutive_updates", [False, True]) if (R > 1 and c.is_true(u_req + R - 1 <= U - 2)) else False
+        if staggered:
+            c.cover("staggered-requests")
         c.tag("requests", "+".join(reqs))
         log = {"exec": [], "now_seen": [], "created": {}}
         state = {"k": None, "books": {}, "resting": [], "new": []}
@@ -39,9 +42,11 @@ def h07(c, U=3, R=1, other_market=False, suspensions=False, real_time_error=Fals
                 # a strategy times an external call on the real clock and that call fails (the framework contains the error)
                 with fl.simulated_datetime.real_time():
                     raise RuntimeError("external call failed")
-            if market.market_id != cm.MID or k != u_req:
+            if market.market_id != cm.MID:
                 return
             for r, kind in enumerate(reqs):
+                if k != u_req + (r if staggered else 0):
+                    continue  # (requests of one kind may be made at different updates: each ages on its own)
                 if kind == "place":
                     o = cm.mk_limit(strategy, "BACK", 3.0, 10.0)
                     market.place_order(o, force=True)
@@ -158,11 +163,12 @@ def h07(c, U=3, R=1, other_market=False, suspensions=False, real_time_error=Fals
             if r not in log["created"]:
                 continue
             o, t_req = log["created"][r]
-            c.ob("req%d.created-at-requesting-update" % r, t_req == times[u_req][0])
-            delay_r = lat[kind] + (delays[u_req] if kind in ("place", "replace") else 0)
+            u_r = u_req + (r if staggered else 0)
+            c.ob("req%d.created-at-requesting-update" % r, t_req == times[u_r][0])
+            delay_r = lat[kind] + (delays[u_r] if kind in ("place", "replace") else 0)
             done = [e for e in log["exec"] if any(x is o for x in e["pkg"]._orders)]
             c.ob("req%d.executed-at-most-once" % r, len(done) <= 1)
-            due = [k for k in range(u_req + 1, U) if c.is_true((times[k][1] - times[u_req][1]) > delay_r * 1000)]
+            due = [k for k in range(u_r + 1, U) if c.is_true((times[k][1] - times[u_r][1]) > delay_r * 1000)]
             if done:
                 e = done[0]
                 kx = e["k"]
@@ -170,7 +176,7 @@ def h07(c, U=3, R=1, other_market=False, suspensions=False, real_time_error=Fals
                 c.ob("req%d.executed-on-own-market-update" % r, isinstance(kx, int))
                 if isinstance(kx, int):
                     c.ob("req%d.executed-at-first-due-update" % r, bool(due) and kx == due[0], executed_at=kx)
-                    c.ob("req%d.elapsed>delay" % r, (times[kx][1] - times[u_req][1]) > delay_r * 1000)
+                    c.ob("req%d.elapsed>delay" % r, (times[kx][1] - times[u_r][1]) > delay_r * 1000)
                     c.ob("req%d.against-previous-book" % r, e["book"] is books[kx - 1])
                     c.ob("req%d.clock-at-execution=processing-update" % r, e["now"] == times[kx][0])
                     tgt = o
@@ -180,18 +186,18 @@ def h07(c, U=3, R=1, other_market=False, suspensions=False, real_time_error=Fals
                             # the queue ahead is the one shown by the book the placement was executed against (the previous update)
                             c.ob("req%d.queue-captured-from-previous-book" % r, e["piq"][id(o)] == 7.0 + (kx - 1), piq=str(e["piq"][id(o)]))
                         for f in o.simulated.matched:
-                            c.ob("req%d.fill-not-before-request" % r, f[0] >= times[u_req][1])
+                            c.ob("req%d.fill-not-before-request" % r, f[0] >= times[u_r][1])
                     if kind == "replace":
                         new = [x for x in fl.markets.markets[cm.MID].blotter if x is not o and x.trade is o.trade]
                         for x in new:
-                            c.ob("req%d.replacement.created-not-before-request" % r, x.date_time_created >= times[u_req][0])
+                            c.ob("req%d.replacement.created-not-before-request" % r, x.date_time_created >= times[u_r][0])
                             c.ob("req%d.replacement.placed=execution-time" % r, x.responses.date_time_placed == times[kx][0])
                             c.cover("replacement")
-                    c.ob("req%d.status-update-time>=request" % r, o.date_time_status_update >= times[u_req][0])
+                    c.ob("req%d.status-update-time>=request" % r, o.date_time_status_update >= times[u_r][0])
             else:
                 c.cover("not-yet-due")
                 c.ob("req%d.not-executed=>never-due" % r, not due)
-            c.ob("req%d.order-created-not-before-request-update" % r, True if kind != "place" else o.date_time_created == times[u_req][0])
+            c.ob("req%d.order-created-not-before-request-update" % r, True if kind != "place" else o.date_time_created == times[u_r][0])
         for (k, mid, now, pt) in log["now_seen"]:
             c.ob("strategy-clock=publish-time", now is pt or c.is_true(now == pt))
         c.cover("run")
@@ -202,7 +208,7 @@ OUT = ["paper trading (time.sleep on pool threads)", "more than U updates / R re
 HARNESSES = [
     Harness("H07", h07, quick=dict(U=3, R=1), thorough=dict(U=5, R=1), pattern="P3 with symbolic time", requires=["run", "executed", "not-yet-due", "replacement"], outside=OUT,
             max_paths=(300000, 3000000), wall_s=(300, 3000)),
-    Harness("H07-2req", h07, quick=dict(U=3, R=2), thorough=dict(U=5, R=2), pattern="P3 with symbolic time", requires=["run", "executed"], outside=OUT,
+    Harness("H07-2req", h07, quick=dict(U=3, R=2), thorough=dict(U=5, R=2), pattern="P3 with symbolic time", requires=["run", "executed", "staggered-requests"], outside=OUT,
             max_paths=(300000, 3000000), wall_s=(300, 3000)),
     Harness("H07-susp", h07, quick=dict(U=3, R=1, suspensions=True), thorough=dict(U=5, R=1, suspensions=True), pattern="P3 with symbolic time",
             requires=["run", "executed", "suspended-update"], outside=OUT, max_paths=(300000, 3000000), wall_s=(300, 3000)),
